@@ -1,79 +1,67 @@
 ---------------------------- MODULE System ----------------------------
-(* Umbrella specification: a small file system holding abstract carts, and p8tool's commands as
-   actions. Section contents are abstract ids; the Lua section is a pair <<program id, form>>
-   where form records which writer last produced the text ("src", "fmt", "min"): luafmt and
-   luamin change the form, never the program (C01, C09). A command either commits or fails;
-   a failing command leaves the file system unchanged (C11, C13). *)
-EXTENDS Naturals, Sequences, FiniteSets, TLC
-CONSTANTS Paths,          \* cart paths, e.g. {"a.p8", "b.p8.png", "out.p8"}
-          MaxSteps
+(* Umbrella specification: a directory holding carts, and p8tool's commands as actions.
+   Section contents are abstract ids ("A", "B", "empty"); the Lua section is a program id
+   ("progA", "progB", "none") - luafmt and luamin change its form, never the program (C01, C09);
+   a .p8 file carries a label section id, a .p8.png file a picture id. A command either commits or
+   fails (the harness realises Fail by making the Lua writer raise); a failing command leaves
+   the directory unchanged (C11, C13).
+   File naming as the tool does it: writep8 / luamin / luafmt on X.p8 or X.p8.png write X_fmt.p8 /
+   X_fmt.p8.png (also writep8: its help text promises a .p8 for a .p8.png input, the code keeps the
+   input's format - modelled as the code does it); luafmt --overwrite writes X.p8 itself; build writes OUT.
+   Histories are drawn at random (one successor per step) and printed step by step. *)
+EXTENDS Naturals, Sequences, FiniteSets, TLC, Json
+CONSTANTS MaxSteps, NSeq
 Secs == {"gfx", "gff", "map", "sfx", "music"}
-IsPng(p) == p \in {"b.p8.png", "out.p8.png"}
-Absent == [exists |-> FALSE]
-\* a cart file: lua = <<prog, form>>, sec = function section -> content id, label id, fmt
-Cart(lua, sec, label, fmt) == [exists |-> TRUE, lua |-> lua, sec |-> sec, label |-> label, fmt |-> fmt]
-EmptySec == [s \in Secs |-> "empty"]
-VARIABLES fs, log, steps
-vars == <<fs, log, steps>>
-Fmt(p) == IF IsPng(p) THEN "png" ELSE "p8"
+Srcs == {"a.p8", "b.p8.png", "out.p8", "out.p8.png"}                \* files commands are applied to
+Paths == Srcs \cup {"a_fmt.p8", "b_fmt.p8.png", "out_fmt.p8", "out_fmt.p8.png"}
+IsPng(p) == p \in {"b.p8.png", "out.p8.png", "b_fmt.p8.png", "out_fmt.p8.png"}
+Stem(p) == CASE p = "a.p8" -> "a" [] p = "b.p8.png" -> "b" [] p \in {"out.p8", "out.p8.png"} -> "out"
+FmtName(p, png) == Stem(p) \o (IF png THEN "_fmt.p8.png" ELSE "_fmt.p8")
+Absent == [exists |-> FALSE, lua |-> "none", sec |-> [s \in Secs |-> "empty"], label |-> "none"]
+Cart(lua, sec, label) == [exists |-> TRUE, lua |-> lua, sec |-> sec, label |-> label]
+VARIABLES fs, step, sid, last
+vars == <<fs, step, sid, last>>
 Init == /\ fs = [p \in Paths |->
-               IF p = "a.p8" THEN Cart(<<"progA", "src">>, [s \in Secs |-> "A"], "labelA", "p8")
-               ELSE IF p = "b.p8.png" THEN Cart(<<"progB", "src">>, [s \in Secs |-> "B"], "labelB", "png")
+               IF p = "a.p8" THEN Cart("progA", [s \in Secs |-> "A"], "labelA")
+               ELSE IF p = "b.p8.png" THEN Cart("progB", [s \in Secs |-> "B"], "picB")
                ELSE Absent]
-        /\ log = <<>> /\ steps = 0
-\* ---- writing a cart file: two-phase; Fail models any failure while producing the bytes ----
-\* a .p8.png destination keeps the label picture of the file it replaces; a .p8 keeps the cart's label section
-WriteCart(p, lua, sec, label) ==
-   LET lab == IF IsPng(p) THEN (IF fs[p].exists THEN fs[p].label ELSE "blank") ELSE label IN
-   fs' = [fs EXCEPT ![p] = Cart(lua, sec, lab, Fmt(p))]
-Commit(cmd, p, lua, sec, label) == /\ WriteCart(p, lua, sec, label) /\ log' = Append(log, [cmd |-> cmd, ok |-> TRUE, path |-> p])
-Fail(cmd, p) == /\ UNCHANGED fs /\ log' = Append(log, [cmd |-> cmd, ok |-> FALSE, path |-> p])
-Derived(p, suffix) == IF IsPng(p) THEN "out.p8.png" ELSE "out.p8"   \* x_fmt.p8 abstracted to the out path of that format
-\* ---- commands ----
-Luafmt(src, overwrite) ==
-  /\ fs[src].exists
-  /\ LET dst == IF overwrite /\ ~IsPng(src) THEN src ELSE Derived(src, "_fmt") IN
-     /\ dst \in Paths
-     /\ \/ Commit("luafmt", dst, <<fs[src].lua[1], "fmt">>, fs[src].sec, fs[src].label)
-        \/ Fail("luafmt", dst)
-Luamin(src) ==
-  /\ fs[src].exists
-  /\ LET dst == Derived(src, "_fmt") IN
-     /\ dst \in Paths
-     /\ \/ Commit("luamin", dst, <<fs[src].lua[1], "min">>, fs[src].sec, fs[src].label)
-        \/ Fail("luamin", dst)
-Writep8(src) ==
-  /\ fs[src].exists /\ "out.p8" \in Paths
-  /\ \/ Commit("writep8", "out.p8", fs[src].lua, fs[src].sec, fs[src].label)
-     \/ Fail("writep8", "out.p8")
-\* build: per-section argument in {"unspec", "empty"} \cup source paths
-BuildArgs == [Secs \cup {"lua"} -> {"unspec", "empty"} \cup {p \in Paths : p \in {"a.p8", "b.p8.png"}}]
-Build(out, args) ==
-  /\ out \in {"out.p8", "out.p8.png"} \cap Paths
-  /\ \A s \in DOMAIN args : args[s] \in Paths => fs[args[s]].exists
-  /\ LET prev == fs[out]
-         pick(s) == IF args[s] = "unspec" THEN (IF prev.exists THEN prev.sec[s] ELSE "empty")
-                    ELSE IF args[s] = "empty" THEN "empty" ELSE fs[args[s]].sec[s]
-         lua == IF args["lua"] = "unspec" THEN (IF prev.exists THEN prev.lua ELSE <<"none", "src">>)
-                ELSE IF args["lua"] = "empty" THEN <<"none", "src">> ELSE fs[args["lua"]].lua
-         label == IF prev.exists THEN prev.label ELSE "blank"
-     IN \/ Commit("build", out, lua, [s \in Secs |-> pick(s)], label)
-        \/ Fail("build", out)
-Next == /\ steps < MaxSteps /\ steps' = steps + 1
-        /\ \/ \E p \in Paths, ow \in BOOLEAN : Luafmt(p, ow)
-           \/ \E p \in Paths : Luamin(p)
-           \/ \E p \in Paths : Writep8(p)
-           \/ \E o \in Paths, src \in {"a.p8", "b.p8.png"}, s \in Secs \cup {"lua"}, k \in {"empty", "src"} :
-                 Build(o, [x \in Secs \cup {"lua"} |-> IF x = s THEN (IF k = "src" THEN src ELSE "empty") ELSE "unspec"])
+        /\ step = 0 /\ sid \in 1..NSeq /\ last = <<>>
+\* what ends up at path p when a cart (lua, sec, label section id) is written there:
+\* a .p8.png keeps the picture of the file it replaces (blank if none); a .p8 keeps the cart's label section
+Written(p, lua, sec, label) ==
+   Cart(lua, sec, IF IsPng(p) THEN (IF fs[p].exists THEN fs[p].label ELSE "blank") ELSE label)
+\* the label *section* a cart loaded from path p carries (a .p8.png has none)
+LabelSec(p) == IF IsPng(p) THEN "none" ELSE fs[p].label
+Cmds ==
+  {[c |-> "writep8", src |-> s, dst |-> FmtName(s, IsPng(s)), ok |-> b] : s \in Srcs, b \in BOOLEAN} \cup
+  {[c |-> "luamin", src |-> s, dst |-> FmtName(s, IsPng(s)), ok |-> b] : s \in Srcs, b \in BOOLEAN} \cup
+  {[c |-> "luafmt", src |-> s, dst |-> FmtName(s, IsPng(s)), ok |-> b] : s \in Srcs, b \in BOOLEAN} \cup
+  {[c |-> "luafmt-overwrite", src |-> s, dst |-> s, ok |-> b] : s \in {"a.p8", "out.p8"}, b \in BOOLEAN} \cup
+  {[c |-> "build", src |-> s, dst |-> o, sect |-> x, kind |-> k, ok |-> b] :
+       s \in {"a.p8", "b.p8.png"}, o \in {"out.p8", "out.p8.png"}, x \in Secs \cup {"lua"}, k \in {"from", "empty"}, b \in BOOLEAN}
+Enabled(cmd) == fs[cmd.src].exists
+Apply(cmd) ==
+  IF ~cmd.ok THEN fs
+  ELSE IF cmd.c \in {"writep8", "luamin", "luafmt", "luafmt-overwrite"} THEN
+       [fs EXCEPT ![cmd.dst] = Written(cmd.dst, fs[cmd.src].lua, fs[cmd.src].sec, LabelSec(cmd.src))]
+  ELSE \* build: one section from a source or emptied, the rest from OUT's previous contents (or empty)
+       LET prev == fs[cmd.dst]
+           sec == [s \in Secs |-> IF s = cmd.sect THEN (IF cmd.kind = "from" THEN fs[cmd.src].sec[s] ELSE "empty")
+                                   ELSE IF prev.exists THEN prev.sec[s] ELSE "empty"]
+           lua == IF cmd.sect = "lua" THEN (IF cmd.kind = "from" THEN fs[cmd.src].lua ELSE "none")
+                  ELSE IF prev.exists THEN prev.lua ELSE "none"
+           lab == IF prev.exists THEN LabelSec(cmd.dst) ELSE "none"
+       IN [fs EXCEPT ![cmd.dst] = Written(cmd.dst, lua, sec, lab)]
+Next == /\ step < MaxSteps
+        /\ \E cmd \in {RandomElement({c \in Cmds : Enabled(c)})} :
+             /\ fs' = Apply(cmd) /\ step' = step + 1 /\ sid' = sid /\ last' = cmd
 Spec == Init /\ [][Next]_vars
-\* ---- properties ----
-TypeOK == \A p \in Paths : fs[p].exists => fs[p].fmt = Fmt(p)
-\* C11/C13: a failed command changes nothing
-FailureIsNoop == [][(log' # log /\ ~log'[Len(log')].ok) => fs' = fs]_vars
-\* C01/C09: formatting and minifying never change which program a file holds, nor its data sections
-ProgramsOnlyFromSources == \A p \in Paths : fs[p].exists => fs[p].lua[1] \in {"progA", "progB", "none"}
-\* a .p8.png file's label picture only ever comes from the file previously at that path (or blank)
-PngLabelStable == [][\A p \in Paths : (IsPng(p) /\ fs[p].exists /\ fs'[p].exists) => fs'[p].label = fs[p].label]_vars
-\* sources given on the command line are never modified by build (unless they are OUT itself)
-SourcesUntouched == [][\A p \in {"a.p8", "b.p8.png"} : (log' # log /\ log'[Len(log')].cmd = "build") => fs'[p] = fs[p]]_vars
+Emit == step > 0 => PrintT(ToJson([sid |-> sid, step |-> step, cmd |-> last, fs |-> fs]))
+\* ---- properties of the model itself (checked on the random histories and, with MCNext, exhaustively to depth 2) ----
+MCNext == step < 2 /\ \E cmd \in Cmds : Enabled(cmd) /\ fs' = Apply(cmd) /\ step' = step + 1 /\ sid' = sid /\ last' = cmd
+MCSpec == Init /\ [][MCNext]_vars
+FailureIsNoop == [][(~last'.ok) => fs' = fs]_vars
+ProgramsOnlyFromSources == \A p \in Paths : fs[p].exists => fs[p].lua \in {"progA", "progB", "none"}
+PictureStable == [][\A p \in Paths : (IsPng(p) /\ fs[p].exists /\ fs'[p].exists) => fs'[p].label = fs[p].label]_vars
+SourcesUntouched == [][\A p \in {"a.p8", "b.p8.png"} : (last'.c = "build") => fs'[p] = fs[p]]_vars
 =============================================================================
